@@ -8,6 +8,8 @@ from .vals import (Val, PyList, PyDict, ExcVal, Callable_, Int, Bool, Str, Bytes
                    mk_none_opt, mk_some, opt_isnone, opt_inner, empty_set, empty_map, empty_seq, seq_unit, coerce, veq,
                    truth, ite_val, fresh_name)
 from .state import Unsupported, Raise, feasible
+from . import dsl
+from .vals import Ty
 
 SKIP_CALL_NAMES = {"print"}
 SKIP_CALL_BASES = {"logging", "logger", "traceback", "warnings"}
@@ -272,6 +274,10 @@ class ExprMixin:
         if isinstance(op, ast.IsNot):
             return z3.Not(self.py_is(a, b))
         if isinstance(op, (ast.In, ast.NotIn)):
+            b = self.unbox_record(b, st)
+            if isinstance(b, Val) and isinstance(b.ty, TOpt) and isinstance(b.ty.inner, (TMap, TSet, TLSet, TSeq, TStr, TRec)):
+                self.check(st, z3.Not(opt_isnone(b)), "safe", "not-none@in", node)       # `x in None` is a TypeError
+                b = opt_inner(b)
             r = self.contains(b, a, node)
             return z3.Not(r) if isinstance(op, ast.NotIn) else r
         if isinstance(op, (ast.Lt, ast.LtE, ast.Gt, ast.GtE)):
@@ -470,6 +476,21 @@ class ExprMixin:
                 return
             yield st, Callable_("boundmethod", attr, bound=obj)
             return
+        if isinstance(obj, Val) and isinstance(obj.ty, TOpaque):
+            op = self.opaque_spec("@" + attr, "?.@" + attr)
+            if op is not None and isinstance(op[0], Ty):
+                # a data attribute of an arbitrary object (opaque table key "@<attr>"): some value of the declared type, or AttributeError
+                s2 = st.clone()
+                # an instance of a declared class that has this field certainly has the attribute
+                (srt,) = obj.ty.comps()
+                for cname, cd in dsl.REG.classes.items():
+                    if attr in cd.fields and not cname.startswith("module:"):
+                        for sub in [cname] + [n for n, d2 in dsl.REG.classes.items() if cname in getattr(d2, "bases", [])]:
+                            s2.assume(z3.Not(z3.Function("isinst!%s!%s" % (sub, srt), srt, z3.BoolSort())(obj.t)))
+                if feasible(s2.pc, z3.BoolVal(True)):
+                    yield s2, Raise(ExcVal("AttributeError"))
+                yield st, fresh(op[0], "attr_" + attr)
+                return
         yield st, Callable_("boundmethod", attr, bound=obj)
 
     def ev_Subscript(self, node, st):
@@ -499,7 +520,15 @@ class ExprMixin:
             if isinstance(vs, Raise):
                 yield st1, vs
                 continue
-            yield from self.index_val(vs[0], vs[1], st1, node)
+            yield from self.index_val(self.unbox_record(vs[0], st1), vs[1], st1, node)
+
+    def unbox_record(self, v, st):
+        """an object standing for a dictionary kept in a list (classdef(..., record=<field>)): the dictionary itself"""
+        if isinstance(v, Val) and isinstance(v.ty, TRef):
+            d = dsl.REG.classes.get(v.ty.cls)
+            if d is not None and getattr(d, "record", None):
+                return self.heap_read(st, v, d.record)
+        return v
 
     def _norm_index(self, idx, length):
         """Python index normalisation for a z3 Int term."""
@@ -530,6 +559,14 @@ class ExprMixin:
 
     def index_val(self, base, idx, st, node):
         from .strings import SplitVal
+        if isinstance(base, Val) and isinstance(base.ty, TOpt) and isinstance(base.ty.inner, (TMap, TSeq, TStr, TBytes, TRec, TTuple)):
+            # subscripting None is a TypeError
+            for st1, isn in self.branch(st, opt_isnone(base)):
+                if isn:
+                    yield st1, Raise(ExcVal("TypeError"))
+                else:
+                    yield from self.index_val(opt_inner(base), idx, st1, node)
+            return
         if isinstance(base, SplitVal):
             yield st, base.index(idx, st, self, node)
             return
